@@ -8,7 +8,8 @@ PROP = dict(
         level_text=("Monitored executions of the real configuration code.  Store legs: histories of 50..250 (thorough 400) assign / remove / "
                     "clear / query operations over a universe of 6..20 paths built from 4..6 element names (lengths 1..3, one of 254..257, "
                     "optionally the empty name; shared prefixes, prefix-of-another, repeated elements), separators '.', '/', ':' mixed freely, "
-                    "end-delimiter form, binary (length-linked) paths, values of 0..300 bytes; stores: the process-wide one incl. up to 4 "
+                    "end-delimiter form, binary (length-linked) paths, values of 0..300 bytes, assignments the store refuses (value without type, "
+                    "unregistered type id: the map must stay exactly as it was); stores: the process-wide one incl. up to 4 "
                     "sub-tree views (1600 / 40k one-history processes) and a private C++ config::root (8k / 300k histories).  After every "
                     "mutating operation every universe entry is queried: value must be byte-equal to the last assignment, absent where the "
                     "model has none, existence must match the prefix-closed node set.  Path leg (120k / 2M cases): mpt_path_set + walk with "
@@ -27,6 +28,7 @@ PROP = dict(
                    floors={"mpt_config_set:assign": 30000, "mpt_config_set:remove": 10000, "mpt_config_set:clear": 1000,
                            "mpt_config_global:view": 2000, "view:assign": 10000, "view:remove": 5000, "view:node-conversion": 1000,
                            "config::assign:binary-path": 2000, "config::remove:binary-path": 1000,
+                           "config::assign:refused": 5000, "state:refused-on-absent-path": 2000,
                            "state:overwrite": 10000, "state:remove-inner-node": 2000, "state:remove-absent": 3000,
                            "state:view-base-created": 300, "universe:long-element": 500, "universe:empty-element": 200,
                            "monitor:value-compares": 500000, "monitor:absence-compares": 500000,
@@ -35,7 +37,8 @@ PROP = dict(
                    floors={"config::set:assign": 100000, "config::root::assign": 50000, "config::set:remove": 50000,
                            "config::del": 30000, "config::root::remove": 30000, "config::root::remove:clear": 5000,
                            "state:overwrite": 30000, "state:remove-inner-node": 5000, "state:long-value": 5000,
-                           "state:del-explicit-length": 10000,
+                           "state:del-explicit-length": 10000, "config::root::assign:refused": 50000,
+                           "state:refused-on-absent-path": 30000, "state:refused-with-absent-intermediate": 15000,
                            "monitor:value-compares": 2000000, "monitor:absence-compares": 2000000,
                            "monitor:existence-compares": 5000000})],
         rule=("case = (path leg) one generated path string of 1..6 elements set and walked, or one build/delete history of 4..17 steps; "
